@@ -381,7 +381,25 @@ fn dense_mul<F: FftField + PrimeField>(rep: &mut Report, rng: &mut Rng, args: &A
             rep.class("fft product skipped: field not smooth enough (documented panic)");
         }
     }
-    let _ = par;
+    // fields with a small two-adicity and a declared small subgroup: a product that needs more points than the
+    // largest radix-2 subgroup has (the general domain must fall back to a mixed-radix one)
+    if par.t <= 13 {
+        let half = (1usize << par.t) / 2;
+        let (l1, l2) = (half + 40 + rng.gen_range(0..60), half + 30 + rng.gen_range(0..60));
+        let need = l1 + l2 - 1;
+        if let Some(sz) = general_size::<F>(need) {
+            let (p, q) = (rand_poly::<F>(rng, l1), rand_poly::<F>(rng, l2));
+            let det = || json!({"field": fname, "len_p": l1, "len_q": l2, "two_adicity": par.t, "expected_domain_size": sz});
+            rep.class("fft product: needs more than 2^TWO_ADICITY points (mixed-radix fallback)");
+            rep.eval(digest(&("dense-mul-large", fname, &p[..8], &q[..8], l1, l2)), true);
+            let (dpp, dq) = (dp(&p), dp(&q));
+            let want = pmul(&p, &q);
+            let pts = points::<F>(rng);
+            if let Some(r) = rep.total("poly/dense/mul", det, || &dpp * &dq) {
+                check_dense(rep, "mul", &r, &want, &pts[..3], &det);
+            }
+        }
+    }
 }
 
 fn dense_div<F: FftField + PrimeField>(rep: &mut Report, rng: &mut Rng, args: &Args, fname: &'static str, shards: usize) {
@@ -1002,6 +1020,34 @@ fn sparse_mul<F: FftField + PrimeField>(rep: &mut Report, rng: &mut Rng, args: &
             }
         }
     }
+    // sparse polynomials whose degree does not fit in 32 bits (a sparse representation exists for exactly this):
+    // evaluation, product and sum against term-wise exponentiation
+    for k in 0..6usize {
+        let big: [usize; 6] = [1 << 32, (1 << 32) + 5, (1 << 40) + 1, (1 << 33) - 1, 1 << 48, (1usize << 61) + 3];
+        let a: Vec<(usize, F)> = vec![(0, gen_nonzero(rng)), (3, gen_nonzero(rng)), (big[k] - 1, gen_nonzero(rng)), (big[k], gen_nonzero(rng))];
+        let b: Vec<(usize, F)> = vec![(1, gen_nonzero(rng)), (big[(k + 1) % 6] / 2, gen_nonzero(rng))];
+        let (sa, sb) = (sp(&a), sp(&b));
+        let term_eval = |t: &[(usize, F)], x: F| -> F { t.iter().map(|(d, c)| *c * x.pow([*d as u64])).sum() };
+        rep.class("sparse polynomial of degree >= 2^32");
+        let det = || json!({"field": fname, "a_degrees": a.iter().map(|t| t.0).collect::<Vec<_>>(), "b_degrees": b.iter().map(|t| t.0).collect::<Vec<_>>()});
+        for x in points::<F>(rng).iter().take(3) {
+            rep.eval(digest(&("sparse-huge", fname, k, x)), true);
+            if let Some(v) = rep.total("poly/sparse/evaluate", det, || sa.evaluate(x)) {
+                rep.check(v == term_eval(&a, *x), || "poly/sparse/evaluate/value".into(), det);
+            }
+            if let Some(m) = rep.total("poly/sparse/mul", det, || sa.mul(&sb)) {
+                let ok = m.evaluate(x) == term_eval(&a, *x) * term_eval(&b, *x) && m.degree() == a[3].0 + b[1].0 && m.iter().all(|(_, c)| !c.is_zero());
+                rep.check(ok, || "poly/sparse/mul/value".into(), det);
+            }
+            if let Some(sm) = rep.total("poly/sparse/add", det, || &sa + &sb) {
+                rep.check(sm.evaluate(x) == term_eval(&a, *x) + term_eval(&b, *x) && sm.degree() == a[3].0.max(b[1].0), || "poly/sparse/add/value".into(), det);
+            }
+        }
+        if rep.total("poly/sparse/degree", det, || sa.degree()) != Some(big[k]) {
+            rep.violation("poly/sparse/degree/value".to_string(), det());
+        }
+    }
+    rep.require("sparse polynomial of degree >= 2^32");
 }
 
 // ------------------------------------------------------------------------------------------------
@@ -1047,8 +1093,36 @@ fn evaluations_ops<F: FftField + PrimeField, D: Kind<F>>(rep: &mut Report, rng: 
             let z = Evaluations::<F, D>::zero(dom);
             rep.check(z.evals == vec![F::zero(); n] && z.domain() == dom, || "poly/evaluations/zero/value".into(), det);
         }
+        // operands over different domains of the same size (a subgroup and one of its proper cosets, or two
+        // different cosets): pointwise arithmetic would combine values taken at different points, and the library
+        // documents that it refuses ("domains are unequal"); silently returning a value is the violation
+        let other_off = h * F::GENERATOR;
+        if let Some(other) = dom.get_coset(other_off) {
+            if other != dom && n > 0 {
+                let a: Vec<F> = (0..n).map(|_| gen_nonzero(rng)).collect();
+                let ea = Evaluations::from_vec_and_domain(a.clone(), dom);
+                let eb = Evaluations::from_vec_and_domain(a.clone(), other);
+                rep.class("evaluations over two different domains of equal size (must be refused)");
+                let det = || json!({"field": fname, "domain_kind": D::KIND, "domain_size": n, "offset_a": fe(&h), "offset_b": fe(&other_off)});
+                let outcomes: Vec<(&str, bool)> = vec![
+                    ("add", guard(|| &ea + &eb).is_ok()),
+                    ("sub", guard(|| &ea - &eb).is_ok()),
+                    ("mul", guard(|| &ea * &eb).is_ok()),
+                    ("div", guard(|| &ea / &eb).is_ok()),
+                    ("add_assign", guard(|| { let mut x = ea.clone(); x += &eb; x }).is_ok()),
+                    ("sub_assign", guard(|| { let mut x = ea.clone(); x -= &eb; x }).is_ok()),
+                    ("mul_assign", guard(|| { let mut x = ea.clone(); x *= &eb; x }).is_ok()),
+                    ("div_assign", guard(|| { let mut x = ea.clone(); x /= &eb; x }).is_ok()),
+                ];
+                for (op, accepted) in outcomes {
+                    rep.eval(digest(&("evaluations-mismatch", fname, D::KIND, n, h, op)), true);
+                    rep.check(!accepted, || format!("poly/evaluations/{op}/accepts-unequal-domains"), det);
+                }
+            }
+        }
     };
     with_domains::<F, D>(rng, cap, &mut go);
+    rep.require("evaluations over two different domains of equal size (must be refused)");
 }
 
 // ------------------------------------------------------------------------------------------------
